@@ -1,4 +1,8 @@
-use std::collections::HashMap;
+use std::collections::{HashMap, HashSet};
+use std::path::{Path, PathBuf};
+use std::sync::Mutex;
+
+use once_cell::sync::Lazy;
 
 use crate::engine::core::SegmentIndex;
 use crate::engine::core::segment::range_allocator::RangeAllocator;
@@ -6,6 +10,21 @@ use crate::engine::core::segment::segment_id::SegmentId;
 use crate::shared::config::CONFIG;
 
 use super::merge_plan::MergePlan;
+
+/// Labels every planning round of this process has seen, per segment index file. A label that a
+/// later round retired (merged into a higher level and reclaimed) must not be handed out again
+/// while the process lives: readers cache zone metadata and column blocks by label, and a
+/// re-created label would be read through the stale entries.
+static SEEN_LABELS: Lazy<Mutex<HashMap<PathBuf, HashSet<String>>>> =
+    Lazy::new(|| Mutex::new(HashMap::new()));
+
+/// Returns the labels seen so far for this index, including the ones passed in.
+fn remember_labels(index_path: &Path, current: &[String]) -> Vec<String> {
+    let mut seen = SEEN_LABELS.lock().unwrap_or_else(|p| p.into_inner());
+    let entry = seen.entry(index_path.to_path_buf()).or_default();
+    entry.extend(current.iter().cloned());
+    entry.iter().cloned().collect()
+}
 
 /// Strategy for planning compaction work from a SegmentIndex.
 pub trait CompactionPolicy {
@@ -47,8 +66,9 @@ impl Default for KWayCountPolicy {
 
 impl CompactionPolicy for KWayCountPolicy {
     fn plan(&self, index: &SegmentIndex) -> Vec<MergePlan> {
-        // Prepare allocator seeded from all existing labels for correct naming
-        let existing_labels = index.all_labels();
+        // Prepare allocator seeded from all existing labels for correct naming, and from the labels
+        // earlier rounds of this process saw (retired since): ids are not reused within a lifetime
+        let existing_labels = remember_labels(index.path(), &index.all_labels());
         let mut allocator =
             RangeAllocator::from_existing_ids(existing_labels.iter().map(|s| s.as_str()));
 
